@@ -723,6 +723,9 @@ func (ex *Exec) modWalkBlocks(fn *ssa.Function, blocks map[*ssa.BasicBlock]bool,
 					ex.modWalk(callee, seen, acc)
 				} else {
 					ex.extArgMods(cc, acc)
+					if readOnlyLibMethod(callee) {
+						continue
+					}
 					// receiver/pointer args of library methods (atomics, mutexes) write the pointed field
 					for _, a := range cc.Args {
 						if _, ok := a.Type().Underlying().(*types.Pointer); ok {
@@ -792,4 +795,14 @@ func (ex *Exec) writeKeysForType(T types.Type) []string {
 		out = append(out, k)
 	}
 	return out
+}
+
+
+// readOnlyLibMethod: library methods that only read their receiver.
+func readOnlyLibMethod(f *ssa.Function) bool {
+	switch f.Name() {
+	case "Load", "IsSet", "IsNotSet", "String", "Len", "Equal", "Before", "After", "Compare", "IsValid", "IsZero":
+		return f.Signature.Recv() != nil
+	}
+	return false
 }
